@@ -112,6 +112,49 @@ Theorem c03_locals_decls_canonical :
 Proof. exact locals_decls_canonical. Qed.
 
 
+
+(* ================================================================== THE BYTES (Model/Bytes.v, Proofs/Bytes.v): the binary encoding of all 517 operators
+   and the control instructions (opcode table generated from what wasmparser's reader accepts - translator/bytes), compared with the real
+   bytes of every body of inputs and outputs by Run/BytesRun.v *)
+From WV Require Import Model.Leb Model.Frame Model.Bytes Proofs.Bytes.
+Section Bytes.
+Local Open Scope N_scope.
+Theorem c03_every_operator_has_an_encoding : (forall o : wop, covered o = true) /\ (forall o : wop, wf_op o = true -> exists bs : list N, enc_op o = Some bs).
+Proof. split; [exact covered_all|exact enc_op_total]. Qed.
+(* reading back what was written gives the instruction and the untouched rest: the encoding is prefix-free *)
+Theorem c03_instruction_bytes_read_back :
+  forall (i : wins) (bs rest : list N), enc_ins i = Some bs -> wf_imm i = true -> dec_ins (bs ++ rest) = Some (i, rest).
+Proof. exact dec_enc_ins. Qed.
+Theorem c03_instruction_encoding_prefix_free :
+  forall (i j : wins) (a b r1 r2 : list N),
+    enc_ins i = Some a -> enc_ins j = Some b -> wf_imm i = true -> wf_imm j = true -> (a ++ r1 = b ++ r2)%list -> i = j /\ r1 = r2.
+Proof. exact enc_ins_prefix_free. Qed.
+(* the range premise on immediates is needed (an immediate beyond what LEB128 u32 / s32 / s64 / u64 carries does not read back) *)
+Theorem c03_immediate_ranges_are_needed : exists (i : wins) (bs : list N), enc_ins i = Some bs /\ wf_imm i = false /\ dec_ins bs <> Some (i, nil).
+Proof. exact wf_imm_needed. Qed.
+Theorem c03_body_bytes_read_back :
+  forall (locals : list (N * valty)) (ops : list wins) (bs : list N),
+    enc_body locals ops = Some bs -> wf_body locals ops = true -> forall fuel : nat, (length ops <= fuel)%nat -> dec_body fuel bs = Some (locals, ops).
+Proof. exact dec_enc_body. Qed.
+(* whatever the reader accepts (padded LEB128 included) can be written, and the written form is not longer *)
+Theorem c03_reader_output_is_writable_and_minimal :
+  forall (f : nat) (bs : list N) (ls : list (N * valty)) (ops : list wins),
+    dec_body f bs = Some (ls, ops) ->
+    exists c : list N, enc_body ls ops = Some c /\ (wf_body ls ops = true -> dec_body (length c) c = Some (ls, ops) /\ (length c <= length bs)%nat).
+Proof.
+  intros f bs ls ops H. destruct (dec_body_normal_form f bs ls ops H) as (c & Hc & Hr). exists c. split; [exact Hc|].
+  intro W. split; [exact (Hr W)|exact (dec_body_minimal f bs ls ops c H W Hc)].
+Qed.
+Theorem c03_code_section_bytes_read_back :
+  forall (bodies : list fbody) (bytess : list (list N)) (payload : list N),
+    enc_bodies bodies = Some bytess -> Forall Frame.small bytess -> lenN bytess < 2 ^ 126 ->
+    forallb (fun b : list (N * valty) * list wins => wf_body (fst b) (snd b)) bodies = true ->
+    enc_code bodies = Some payload -> dec_code payload = Some bodies.
+Proof. exact dec_code_section. Qed.
+Example c03_body_bytes_example : enc_body ex_locals ex_ops = Some ex_bytes.
+Proof. exact ex_enc. Qed.
+End Bytes.
+
 Print Assumptions c03_codec.
 Print Assumptions c03_big_offset_refuted.
 Print Assumptions c03_body.
@@ -122,3 +165,10 @@ Print Assumptions c03_locals_renaming_consistent.
 Print Assumptions c03_locals_params_fixed.
 Print Assumptions c03_locals_types_preserved.
 Print Assumptions c03_locals_decls_canonical.
+Print Assumptions c03_every_operator_has_an_encoding.
+Print Assumptions c03_instruction_bytes_read_back.
+Print Assumptions c03_instruction_encoding_prefix_free.
+Print Assumptions c03_immediate_ranges_are_needed.
+Print Assumptions c03_body_bytes_read_back.
+Print Assumptions c03_reader_output_is_writable_and_minimal.
+Print Assumptions c03_code_section_bytes_read_back.
